@@ -11,4 +11,5 @@ def run(tier, seed):
                 'positions': 'declaration, assignment, for target, parameter', 'templates': len(ts)}
     c.outside = ['patterns deeper than 2 or wider than 4']
     c.run_family('destructure', ts, ('exit', 'stdout', 'stderr-empty', 'panic', 'hang'), destructure.role)
+    c.run_random(('exit', 'stdout', 'stderr-empty', 'panic', 'hang'))
     return c.finish()
